@@ -130,14 +130,30 @@ func isKeyed(v cty.Value) bool {
 	t := tyOf(v)
 	return t.IsMapType() || t.IsObjectType()
 }
-func isSet(v cty.Value) bool    { return tyOf(v).IsSetType() }
-func isObj(v cty.Value) bool    { return tyOf(v).IsObjectType() && len(tyOf(v).AttributeTypes()) > 0 }
-func isColl(v cty.Value) bool   { return tyOf(v).IsCollectionType() }
-func isIter(v cty.Value) bool   { t := tyOf(v); return t.IsCollectionType() || t.IsTupleType() || t.IsObjectType() }
-func isIndex(v cty.Value) bool  { t := tyOf(v); return t.IsListType() || t.IsTupleType() || t.IsMapType() }
+func isSet(v cty.Value) bool  { return tyOf(v).IsSetType() }
+func isObj(v cty.Value) bool  { return tyOf(v).IsObjectType() && len(tyOf(v).AttributeTypes()) > 0 }
+func isColl(v cty.Value) bool { return tyOf(v).IsCollectionType() }
+func isIter(v cty.Value) bool {
+	t := tyOf(v)
+	return t.IsCollectionType() || t.IsTupleType() || t.IsObjectType()
+}
+func isIndex(v cty.Value) bool {
+	t := tyOf(v)
+	return t.IsListType() || t.IsTupleType() || t.IsMapType()
+}
 func isMarked(v cty.Value) bool { return v.ContainsMarked() }
 func isUnk(v cty.Value) bool    { return !v.IsKnown() && tyOf(v) != cty.DynamicPseudoType }
 func hasUnk(v cty.Value) bool   { return !v.IsWhollyKnown() }
+
+func knownNN(p pred) pred {
+	return func(v cty.Value) bool {
+		if !p(v) {
+			return false
+		}
+		u, _ := v.Unmark()
+		return u.IsKnown() && !u.IsNull()
+	}
+}
 
 type opDef struct {
 	name string // API entry point; used as the violation site
@@ -281,7 +297,7 @@ func init() {
 		}},
 
 		// ---- accessors whose result is then mutated
-		{name: "Value.AsBigFloat", need: "v", p0: isNum, run: func(x *opctx) outcome {
+		{name: "Value.AsBigFloat", need: "v", p0: knownNN(isNum), run: func(x *opctx) outcome {
 			var o outcome
 			u, _ := x.v[0].Unmark()
 			f := u.AsBigFloat()
@@ -294,13 +310,13 @@ func init() {
 			o.addf("%s", bigFP(u.AsBigFloat()))
 			return o
 		}},
-		{name: "Value.AsString", need: "v", p0: isStr, run: func(x *opctx) outcome {
+		{name: "Value.AsString", need: "v", p0: knownNN(isStr), run: func(x *opctx) outcome {
 			var o outcome
 			u, _ := x.v[0].Unmark()
 			o.addf("%q", u.AsString())
 			return o
 		}},
-		{name: "Value.AsValueSlice", need: "v", p0: isIter, run: func(x *opctx) outcome {
+		{name: "Value.AsValueSlice", need: "v", p0: knownNN(isIter), run: func(x *opctx) outcome {
 			var o outcome
 			u, _ := x.v[0].Unmark()
 			s := u.AsValueSlice()
@@ -315,7 +331,7 @@ func init() {
 			o.vals = append(o.vals, u.AsValueSlice()...)
 			return o
 		}},
-		{name: "Value.AsValueMap", need: "v", p0: isKeyed, run: func(x *opctx) outcome {
+		{name: "Value.AsValueMap", need: "v", p0: knownNN(isKeyed), run: func(x *opctx) outcome {
 			var o outcome
 			u, _ := x.v[0].Unmark()
 			m := u.AsValueMap()
@@ -338,7 +354,26 @@ func init() {
 			}
 			return o
 		}},
-		{name: "Value.AsValueSet", need: "v", p0: isColl, run: func(x *opctx) outcome {
+		{name: "Value.AsValueSet", need: "v", p0: knownNN(isColl), run: func(x *opctx) outcome {
+			var o outcome
+			u, _ := x.v[0].Unmark()
+			vs := u.AsValueSet()
+			o.addf("%s", setFP(vs, x.ptr))
+			x.unchanged("Value.AsValueSet", "the returned value set", []cty.Value{x.v[0]}, nil, func() {
+				vs.Add(cty.UnknownVal(vs.ElementType()))
+				vs.Add(cty.UnknownVal(vs.ElementType()))
+				for _, m := range vs.Values() {
+					if x.k&1 == 0 {
+						vs.Remove(m)
+					}
+					break
+				}
+				vs.Add(cty.NullVal(vs.ElementType()))
+			})
+			o.sets = append(o.sets, vs, u.AsValueSet())
+			return o
+		}},
+		{name: "Value.AsValueSet", need: "v", p0: knownNN(isSet), run: func(x *opctx) outcome {
 			var o outcome
 			u, _ := x.v[0].Unmark()
 			vs := u.AsValueSet()
@@ -426,7 +461,7 @@ func init() {
 			o.vals = append(o.vals, u.MarkWithPaths(pvm2))
 			return o
 		}},
-		{name: "Value.ElementIterator", need: "v", p0: isIter, run: func(x *opctx) outcome {
+		{name: "Value.ElementIterator", need: "v", p0: knownNN(isIter), run: func(x *opctx) outcome {
 			var o outcome
 			u, _ := x.v[0].Unmark()
 			for it := u.ElementIterator(); it.Next(); {
@@ -609,33 +644,37 @@ func init() {
 		{name: "Value.Refine", need: "v", p0: isUnk, run: func(x *opctx) outcome {
 			v := x.v[0]
 			ty := v.Type()
-			b := v.Refine()
-			k := x.k
-			if k&1 == 1 {
-				b = b.NotNull()
-			}
-			switch {
-			case ty == cty.Number:
-				lo := int64((k>>1)%5) - 2
-				if k&64 != 0 {
-					b = b.NumberRangeLowerBound(cty.NumberIntVal(lo), k&128 != 0)
+			var b *cty.RefinementBuilder
+			// the builder works on a copy: refining must not touch the value it was obtained from
+			x.unchanged("Value.Refine", "the builder obtained from Refine()", []cty.Value{v}, nil, func() {
+				b = v.Refine()
+				k := x.k
+				if k&1 == 1 {
+					b = b.NotNull()
 				}
-				if k&256 != 0 {
-					b = b.NumberRangeUpperBound(cty.NumberIntVal(lo+1+int64((k>>9)%3)), k&2048 != 0)
+				switch {
+				case ty == cty.Number:
+					lo := int64((k>>1)%5) - 2
+					if k&64 != 0 {
+						b = b.NumberRangeLowerBound(cty.NumberIntVal(lo), k&128 != 0)
+					}
+					if k&256 != 0 {
+						b = b.NumberRangeUpperBound(cty.NumberIntVal(lo+1+int64((k>>9)%3)), k&2048 != 0)
+					}
+				case ty == cty.String:
+					if k&64 != 0 {
+						b = b.StringPrefix(stringsPool[int((k>>7)%uint64(len(stringsPool)))])
+					}
+				case ty.IsCollectionType():
+					lo := int((k >> 1) % 3)
+					if k&64 != 0 {
+						b = b.CollectionLengthLowerBound(lo)
+					}
+					if k&128 != 0 {
+						b = b.CollectionLengthUpperBound(lo + int((k>>8)%3))
+					}
 				}
-			case ty == cty.String:
-				if k&64 != 0 {
-					b = b.StringPrefix(stringsPool[int((k>>7)%uint64(len(stringsPool)))])
-				}
-			case ty.IsCollectionType():
-				lo := int((k >> 1) % 3)
-				if k&64 != 0 {
-					b = b.CollectionLengthLowerBound(lo)
-				}
-				if k&128 != 0 {
-					b = b.CollectionLengthUpperBound(lo + int((k>>8)%3))
-				}
-			}
+			})
 			v1 := b.NewValue()
 			// the builder is used further: neither the original nor the value already built may change
 			x.unchanged("RefinementBuilder.NewValue", "the builder after NewValue (further refinement calls)", []cty.Value{v, v1}, nil, func() {
@@ -857,6 +896,7 @@ func init() {
 		}},
 	}
 	ops = append(ops, stdlibOps()...)
+	ops = append(ops, goctyOps()...)
 	fillOpN()
 }
 
